@@ -172,46 +172,39 @@ def despawn1 (s : St) (e : Nat) : St := if s.alive e then kill s e else s
 
 /-! ### trackers -/
 
-def TrkData.start (t : TrkData) (sys : Nat) : TrkData :=
-  match findIdx' (fun p => p.1 == sys) t.prepared 0 with
-  | none => t
-  | some i =>
-    match t.prepared[i]? with
-    | none => t
-    | some (_, d) => { reacting := true, cur := d, prepared := swapRemove t.prepared i }
+/-- The `RType` every entity-event reaction prepares in the entity reaction tracker (`Event(TypeId::of::<()>())`). -/
+def evUnit : RType := ⟨.ev, 1000⟩
 
-def TrkEnt.start (t : TrkEnt) (sys : Nat) : TrkEnt :=
-  match findIdx' (fun p => p.1 == sys) t.prepared 0 with
-  | none => t
-  | some i =>
-    match t.prepared[i]? with
-    | none => t
-    | some (s', src, rt) => { reacting := true, curSys := s', curSrc := src, curRt := rt, prepared := swapRemove t.prepared i }
+/-- `start(reactor, ticket)`: the entry prepared for *this* command (the ticket identifies it; entries with equal content
+    are interchangeable) becomes current and leaves the list; nothing happens if it is missing. -/
+def TrkData.start (t : TrkData) (sys d : Nat) : TrkData :=
+  if (sys, d) ∈ t.prepared then { reacting := true, cur := d, prepared := t.prepared.erase (sys, d) } else t
+
+def TrkEnt.start (t : TrkEnt) (sys src : Nat) (rt : RType) : TrkEnt :=
+  if (sys, src, rt) ∈ t.prepared then
+    { reacting := true, curSys := sys, curSrc := src, curRt := rt, prepared := t.prepared.erase (sys, src, rt) }
+  else t
 
 /-- Returns the handle that was held in `reactor_handle` before (it is dropped by the assignment). -/
-def TrkDsp.start (t : TrkDsp) (sys : Nat) : TrkDsp × Option Handle :=
-  match findIdx' (fun p => p.1 == sys) t.prepared 0 with
-  | none => (t, none)
-  | some i =>
-    match t.prepared[i]? with
-    | none => (t, none)
-    | some (_, src, h) =>
-      ({ reacting := true, curSrc := src, curHandle := some h, prepared := swapRemove t.prepared i }, t.curHandle)
+def TrkDsp.start (t : TrkDsp) (sys src : Nat) (h : Handle) : TrkDsp × Option Handle :=
+  if (sys, src, h) ∈ t.prepared then
+    ({ reacting := true, curSrc := src, curHandle := some h, prepared := t.prepared.erase (sys, src, h) }, t.curHandle)
+  else (t, none)
 
 /-- The `setup` function pointer of a command kind. -/
 def setupK (s : St) (k : Kind) (sys : Nat) : St :=
   match k with
   | .plain => s
-  | .sysEv _ => { s with trkSys := s.trkSys.start sys }
-  | .entReact _ _ => { s with trkEnt := s.trkEnt.start sys }
-  | .dspReact _ =>
-    let (t, old) := s.trkDsp.start sys
+  | .sysEv d => { s with trkSys := s.trkSys.start sys d }
+  | .entReact src rt => { s with trkEnt := s.trkEnt.start sys src rt }
+  | .dspReact src h =>
+    let (t, old) := s.trkDsp.start sys src h
     let s := { s with trkDsp := t }
     match old with
     | some h => dropHandle s h
     | none => s
-  | .entEv _ _ => { s with trkEnt := s.trkEnt.start sys, trkEvt := s.trkEvt.start sys }
-  | .bcEv _ => { s with trkEvt := s.trkEvt.start sys }
+  | .entEv target d => { s with trkEnt := s.trkEnt.start sys target evUnit, trkEvt := s.trkEvt.start sys d }
+  | .bcEv d => { s with trkEvt := s.trkEvt.start sys d }
 
 /-- `try_cleanup_data_entity`. -/
 def tryCleanupData (s : St) (d : Nat) : St :=
@@ -233,7 +226,7 @@ def cleanupK (s : St) (k : Kind) : St :=
     let s := { s with trkSys := { s.trkSys with reacting := false } }
     despawn1 s s.trkSys.cur
   | .entReact _ _ => { s with trkEnt := { s.trkEnt with reacting := false } }
-  | .dspReact _ =>
+  | .dspReact _ _ =>
     let old := s.trkDsp.curHandle
     let s := { s with trkDsp := { s.trkDsp with reacting := false, curHandle := none } }
     match old with
@@ -392,8 +385,6 @@ def observe (s : St) (isEwr : Option Nat) : Obs × St :=
   (obs, s')
 
 
-/-- The `RType` every entity-event reaction prepares in the entity reaction tracker (`Event(TypeId::of::<()>())`). -/
-def evUnit : RType := ⟨.ev, 1000⟩
 
 /-- Ghost: did the `start` of a command of kind `k` claim the metadata that this very command prepared? -/
 def claimedOwn (s : St) (k : Kind) : Bool :=
@@ -401,7 +392,7 @@ def claimedOwn (s : St) (k : Kind) : Bool :=
   | .plain => true
   | .sysEv d => s.trkSys.cur == d
   | .entReact src rt => s.trkEnt.curSrc == src && s.trkEnt.curRt == rt
-  | .dspReact src => s.trkDsp.curSrc == src
+  | .dspReact src h => s.trkDsp.curSrc == src && s.trkDsp.curHandle == some h
   | .entEv target d => s.trkEvt.cur == d && s.trkEnt.curSrc == target && s.trkEnt.curRt == evUnit
   | .bcEv d => s.trkEvt.cur == d
 
@@ -442,6 +433,6 @@ def expectObs (s : St) (k : Kind) (isEwr : Option Nat) : Obs :=
     | .mut => { b with mutE := tys.map (fun ty => if ty = rt.ty then some src else none) }
     | .rem => { b with remE := tys.map (fun ty => if ty = rt.ty then some src else none) }
     | .ev => b
-  | .dspReact src => { base with dsp := some src }
+  | .dspReact src _ => { base with dsp := some src }
 
 end Cobweb
